@@ -19,8 +19,8 @@ TEXT = {'C11': {'technique': 'Lean 4 proof by mutual structural induction over t
                   'formulations were refuted by the proof attempt and are kept next to their refutations. **Store layer (Lemmas/StoreTransparent.lean): on '
                   'terms all of whose hole cells are solved, the store-aware sshiftS / ushiftS / openS / freeAtS (the models of the `Unifier` arms) return '
                   'exactly the pure function of the zonked term and leave the store untouched (C11_store_shift_transparent, C11_store_ushift_transparent, '
-                  'C11_store_open_transparent, C11_store_fv_transparent), so the laws transfer (C11_store_laws); fuel totality of openS/freeAtS is stated and '
-                  'pending.**',
+                  'C11_store_open_transparent, C11_store_fv_transparent), so the laws transfer (C11_store_laws); with enough fuel they always answer '
+                  '(C11_store_open_fv_total).**',
          'note': 'Trusted: Lean kernel, axioms {propext, Quot.sound, Classical.choice}, the correspondence harness and driver. Congruence arms of '
                  'signed_shift/open/free_variables: regenerated from source and proved equal to the model; Variable/Unifier arms: modelled by hand, pinned by '
                  'CRC of their text, tied by correspondence. Trusted: extract/arms.py.'},
